@@ -488,7 +488,9 @@ func runNDSpoof(e *exec) {
 				clean := true
 				for _, a := range epoch {
 					for _, b := range evs {
-						if a.rec != nil && b.rec != nil && a.rec != b.rec && a.rec.Inv < b.rec.Ret && b.rec.Inv < a.rec.Ret {
+						// a StartHunt overlapping a StopHunt has no defined order; two overlapping
+						// StartHunt calls hunt the MAC once in either order
+						if a.rec != nil && b.rec != nil && a.rec != b.rec && a.rec.Op.K != b.rec.Op.K && a.rec.Inv < b.rec.Ret && b.rec.Inv < a.rec.Ret {
 							clean = false
 						}
 					}
